@@ -212,3 +212,20 @@ reg("C09", "c09", [("histories", "plain", 1)], "exploration",
                "option values with ValueError before any KKT factorization or F(x) call, and respect maxiters.",
     level_note="Trusts the reference server (a process forked before the first solver call) and float.hex serialisation.",
     design_ref="4/C09")
+
+reg("C11", "c11", [("expressions", "plain", 1)], "exploration",
+    rule="Hypothesis draws 1-3 variables of lengths 1-4 and a typed expression tree (depth <= 4) of requested length and "
+         "curvature from the documented operations: +, -, unary -, scalar*f, f*scalar, f/scalar, A*f (dense/sparse A), "
+         "f*a (len(f)=1), indexing with int / negative int / slice / list / integer matrix, sum, dot, max, min, abs, "
+         "single-argument max/min and the in-place forms; the same variable may occur several times with scalar, row and "
+         "matrix coefficients. 10% of the trees are built to be invalid (length mismatch, convex+concave, max of concave, "
+         "matrix*PWL, index out of range, length-changing in-place). Values are dyadic so the reference arithmetic is exact. "
+         "Non-trivial = length >= 2 and (a variable occurring >= 2 times or a convex/concave result); distinct = SHA-1.",
+    assumptions=["values compared exactly (dyadic data: no rounding in either implementation)",
+                 "curvature acceptance is probed through the public constraint constructors f<=0, -f<=0, f==0"],
+    technique="property-based testing (Hypothesis recursive typed generator) against a numpy reference evaluator; aliasing probes",
+    level_text="~4e4 (quick) / 8e5 (thorough) generated expression trees: len(f), f.value() at three assignments, "
+               "variables(), None-propagation, curvature acceptance/refusal and non-aliasing of +f and binary results are "
+               "compared with a reference evaluator written from modeling.rst.",
+    level_note="Trusts vlib/ref_model.py (reference evaluator, 150 lines) and numpy.",
+    design_ref="4/C11")
